@@ -12,9 +12,9 @@ class Other(def oz: Str)
     def name(self) -> Str => self.oz
 
 class Holder(def hi: Int, def hf: Float, def hs: Str, def hb: Base)
-    def mi(self, a: Int) -> Int => a
-    def mf(self, a: Float, b: Int := 1) -> Float => a
-    def ms(self, a: Str) -> Str => a
+    def mi(self, a: Int) -> Int => a + 1
+    def mf(self, a: Float, b: Int := 1) -> Float => a * 2.0
+    def ms(self, a: Str) -> Str => a + "m"
     def mb(self, a: Base) -> Int => a.get()
     def mc(self, a: Child) -> Int => a.more()
     def m2(self, a: Int, b: Int) -> Int => a + b
@@ -27,8 +27,8 @@ def boomf() -> Int raise [Boom] =>
     0
 
 def fi(a: Int) -> Int => a + 1
-def ff(a: Float) -> Float => a
-def fs(a: Str, b: Int := 2) -> Str => a
+def ff(a: Float) -> Float => a * 2.0
+def fs(a: Str, b: Int := 2) -> Str => a + "f{b + 1}"
 def fbool(a: Bool) -> Bool => a
 def fb(a: Base) -> Int => a.get()
 def fc(a: Child) -> Int => a.more()
@@ -209,8 +209,9 @@ def c05_cells():
         'List[Int]': [('ok', '[1, 2]', True), ('bad-elem', '["a"]', False), ('bad-last-elem', '[1, "a"]', False), ('bad-first-elem', '["a", 1]', False), ('not-a-list', '3', False)],
         '(Float, Float)': [('ok', '(1.5, 2.5)', True), ('int-components', '(1, 2)', True), ('int-first', '(1, 2.5)', True), ('bad-last', '(1.5, "s")', False), ('bad-first', '("s", 1.5)', False)],
     }
-    GEN_TOP = ['def ft2(a: (Int, Int)) -> Int => 1', 'def ft3(a: (Int, Str, Int)) -> Int => 1', 'def flist(a: List[Int]) -> Int => 1', 'def ftf(a: (Float, Float)) -> Int => 1',
-               'class GH', '    def mt2(self, a: (Int, Int)) -> Int => 1']
+    GEN_TOP = ['def ft2(a: (Int, Int)) -> Int =>', '    def (tp, tq) := a', '    tp + tq', 'def ft3(a: (Int, Str, Int)) -> Int =>', '    def (tp, ts, tq) := a', '    def tz: Str := ts + "z"', '    tp + tq',
+               'def flist(a: List[Int]) -> Int =>', '    def tot := 0', '    for le in a do tot := tot + le', '    tot', 'def ftf(a: (Float, Float)) -> Float =>', '    def (tp, tq) := a', '    tp * tq',
+               'class GH', '    def mt2(self, a: (Int, Int)) -> Int =>', '        def (tp, tq) := a', '        tp + tq']
     for uname, ety, stmt in GEN_USES:
         for fname, expr, conforms in GEN_FILL[ety]:
             for ctx in CONTEXTS:
